@@ -626,7 +626,7 @@ def judge(cfg, recs, info, res: RunResult, variant):
                 elif "payload" in first and first["payload"] not in (None, {}) :
                     V("init-payload", "%s: connection_init carries payload %r but none is configured" % (tag, first.get("payload")))
         n_sub = types.count("subscribe")
-        if exp["subscribe"] and len(cf_) == 1 and term[0] == "exc" and not term[1].startswith("GraphQLClient") \
+        if exp["subscribe"] and not probe and len(cf_) == 1 and term[0] == "exc" and not term[1].startswith("GraphQLClient") \
                 and term[1] not in ALLOWED_TRANSPORT_EXC:
             V("subscribe-failed", "%s: connection_ack was delivered but instead of sending subscribe the iterator raised %s %s"
               % (tag, term[1], term[2]), exc=term[1])
